@@ -10,6 +10,8 @@ class SolverTap:
         self.runs = []
         self.cur = None
         self._orig = {}
+        self.active = False
+        self.broken = 0          # errors inside the tap itself (the run concerned is dropped)
 
     def install(self):
         from sysloss.system import System
@@ -22,44 +24,86 @@ class SolverTap:
         def vec(s, arr):
             return [cell(arr[idx]) for idx, _ in names_of(s)]
 
+        self.active = all(callable(getattr(System, k, None)) for k in ("_solve", "_fwd_prop", "_back_prop"))
+        if not self.active:
+            # the loop is not where it used to be: nothing is wrapped, the sweep-level clauses are not evaluated (reduced
+            # coverage, recorded in the evidence); the black-box clauses of C03 do not need the tap
+            return
+        import inspect
+        sig = inspect.signature(System._solve)
+
+        def bound(s, a, kw):
+            """the arguments of a _solve call by name, whatever way they were passed"""
+            try:
+                b = sig.bind(s, *a, **kw)
+                b.apply_defaults()
+                return b.arguments
+            except Exception:
+                return {}
+
+        def guarded(f):
+            """observation must never change what the library does: an error inside the tap marks the run as broken"""
+            def g(*a, **kw):
+                try:
+                    return f(*a, **kw)
+                except Exception:
+                    if tap.cur is not None:
+                        tap.cur["broken"] = True
+                    tap.broken += 1
+                    return None
+            return g
+
         @functools.wraps(System._solve)
-        def _solve(s, vtol=1e-5, itol=1e-6, maxiter=10000, quiet=True, phase=""):
-            run = {"names": [n for _, n in names_of(s)], "phase": phase,
-                   "args": {"vtol": cell(vtol), "itol": cell(itol), "maxiter": int(maxiter)},
-                   "sweeps": [], "end": None}
+        def _solve(s, *a, **kw):
+            ar = bound(s, a, kw)
+            run = {"names": [], "phase": ar.get("phase", ""),
+                   "args": {"vtol": cell(ar.get("vtol", 1e-5)), "itol": cell(ar.get("itol", 1e-6)), "maxiter": int(ar.get("maxiter", 10000))},
+                   "sweeps": [], "end": None, "broken": False}
+            guarded(lambda: run.__setitem__("names", [n for _, n in names_of(s)]))()
             outer, tap.cur = tap.cur, run
             try:
-                v, i, iters, state = tap._orig["_solve"](s, vtol, itol, maxiter, quiet, phase)
-                run["end"] = {"kind": "return" if iters <= maxiter else "raise",
-                              "exc": "" if iters <= maxiter else "RuntimeError", "iters": int(iters),
-                              "v": vec(s, v), "i": vec(s, i)}
-                return v, i, iters, state
+                ret = tap._orig["_solve"](s, *a, **kw)
+
+                def note():
+                    v, i, iters = ret[0], ret[1], ret[2]
+                    mx = run["args"]["maxiter"]
+                    run["end"] = {"kind": "return" if iters <= mx else "raise",
+                                  "exc": "" if iters <= mx else "RuntimeError", "iters": int(iters),
+                                  "v": vec(s, v), "i": vec(s, i)}
+                guarded(note)()
+                return ret
             except Exception as e:
                 run["end"] = {"kind": "raise", "exc": type(e).__name__, "iters": len(run["sweeps"]), "v": [], "i": []}
                 raise
             finally:
                 tap.cur = outer
-                tap.runs.append(run)
+                if not run["broken"] and run["end"] is not None:
+                    tap.runs.append(run)
 
         @functools.wraps(System._fwd_prop)
-        def _fwd_prop(s, v, i, phase="", state=[]):
+        def _fwd_prop(s, v, i, *a, **kw):
             run = tap.cur
             sw = None
-            if run is not None:
-                sw = {"v0": vec(s, v), "i0": vec(s, i), "v1": [], "i1": [], "ok": False}
-                run["sweeps"].append(sw)
-            vo, ostate = tap._orig["_fwd_prop"](s, v, i, phase, state)
+            if run is not None and not run["broken"]:
+                def pre():
+                    d = {"v0": vec(s, v), "i0": vec(s, i), "v1": [], "i1": [], "ok": False}
+                    run["sweeps"].append(d)
+                    return d
+                sw = guarded(pre)()
+            ret = tap._orig["_fwd_prop"](s, v, i, *a, **kw)
             if sw is not None:
-                sw["v1"] = vec(s, vo)
-            return vo, ostate
+                guarded(lambda: sw.__setitem__("v1", vec(s, ret[0])))()
+            return ret
 
         @functools.wraps(System._back_prop)
-        def _back_prop(s, v, i, phase="", state=[]):
-            ii = tap._orig["_back_prop"](s, v, i, phase, state)
+        def _back_prop(s, v, i, *a, **kw):
+            ii = tap._orig["_back_prop"](s, v, i, *a, **kw)
             run = tap.cur
-            if run is not None and run["sweeps"]:
-                run["sweeps"][-1]["i1"] = vec(s, ii)
-                run["sweeps"][-1]["ok"] = True
+            if run is not None and not run["broken"] and run["sweeps"]:
+                def post():
+                    run["sweeps"][-1]["i1"] = vec(s, ii)
+                    run["sweeps"][-1]["ok"] = True
+                guarded(post)()
             return ii
 
         for k, f in (("_solve", _solve), ("_fwd_prop", _fwd_prop), ("_back_prop", _back_prop)):
